@@ -366,6 +366,10 @@ def parse_consts():
     if not m:
         raise Refuse('gen.cpp: advanceLine standard-file test changed')
     genstd = m.group(1)
+    m = re.search(r'\.fs =\s*\{\s*\.name = "([^"]*)",\s*\.line = (-?\d+),\s*\}', strip_comments(g))
+    if not m:
+        raise Refuse('gen.cpp: initial file context (.fs = {.name, .line}) not found')
+    rootfs = (m.group(1), int(m.group(2)))
     guards = {}
     m = re.search(r'int strToInt\(GenState &gs, Node \*c\)\s*\{\s*long v = std::strtol\(c->tok\.c_str\(\), NULL, 10\);\s*if \(v (>=|>) INT_MAX\)', g)
     if not m:
@@ -376,7 +380,7 @@ def parse_consts():
     if not m:
         raise Refuse('macro.cpp: strToInt guard changed shape')
     guards['macro'] = m.group(1)
-    return passes, bytes(out), stdname, phrase, genstd, guards
+    return passes, bytes(out), stdname, phrase, genstd, guards, rootfs
 
 
 def emit(name, body):
@@ -446,7 +450,7 @@ def main():
     body += 'end Theo.DetGen\n'
     emit('DetectorGrammar.lean', body)
 
-    passes, stdtext, stdname, phrase, genstd, guards = parse_consts()
+    passes, stdtext, stdname, phrase, genstd, guards, rootfs = parse_consts()
     body = 'namespace Theo.ConstGen\n'
     body += 'def macroPasses : Nat := %d\n' % passes
     body += 'def stdMacroText : List UInt8 := %s\n' % lean_bytes(stdtext)
@@ -456,6 +460,9 @@ def main():
     body += '/-- literal range guards: `true` = the value INT_MAX itself is rejected (`v >= INT_MAX`) -/\n'
     body += 'def genGuardRejectsMax : Bool := %s\n' % ('true' if guards['gen'] == '>=' else 'false')
     body += 'def macroGuardRejectsMax : Bool := %s\n' % ('true' if guards['macro'] == '>=' else 'false')
+    body += '/-- file context of the generator before any node was visited -/\n'
+    body += 'def rootFsName : List UInt8 := %s\n' % lean_bytes(rootfs[0].encode())
+    body += 'def rootFsLine : Int := %d\n' % rootfs[1]
     body += 'end Theo.ConstGen\n'
     emit('Consts.lean', body)
     return 0
